@@ -294,3 +294,34 @@ func firstFn(r *Run, pkg string, names ...string) *ssa.Function {
 	}
 	panic(anchorErr{pkg + ":" + names[0]})
 }
+
+// trueEdgesOf: the edges taken when the boolean value v itself (as an If condition, through
+// negations) is true.
+func trueEdgesOf(f *ssa.Function, v ssa.Value) []edge {
+	var out []edge
+	for _, b := range f.Blocks {
+		if len(b.Instrs) == 0 {
+			continue
+		}
+		i, ok := b.Instrs[len(b.Instrs)-1].(*ssa.If)
+		if !ok {
+			continue
+		}
+		c, neg := i.Cond, false
+		for {
+			u, ok := c.(*ssa.UnOp)
+			if !ok || u.Op != token.NOT {
+				break
+			}
+			c, neg = u.X, !neg
+		}
+		if c == v {
+			slot := 0
+			if neg {
+				slot = 1
+			}
+			out = append(out, edge{b, slot})
+		}
+	}
+	return out
+}
